@@ -762,7 +762,7 @@ def run_named_mps(case):
 @st.composite
 def s_named_mpo(draw, tier):
     which = draw(st.sampled_from(["identity", "identity_sites", "zeros", "identity_like", "zeros_like", "product", "rand", "rand",
-                                  "rand_herm", "rand_state_method"]))
+                                  "rand_herm", "rand_state_method", "like_sub"]))
     L = draw(st.integers(1, 5))
     ph = draw(st.sampled_from([1, 2, 2, 3]))
     while ph**L > 36:
@@ -815,6 +815,22 @@ def run_named_mpo(case):
                 (base.upper_ind_id, base.lower_ind_id, base.site_tag_id, bool(base.cyclic), int(base.L)):
             raise Violation("like-structure", **info)
         ref = np.eye(D) if w == "identity_like" else np.zeros((D, D))
+    elif w == "like_sub":
+        # *_like of an operator living on a subset of sites: "same physical index and inds/tags as mpo"
+        if L < 2:
+            raise Reject("sub-operators need >= 2 sites")
+        ss = case["sites"]
+        base = qtn.MPO_rand(case["Ltot"], case["bond"], phys_dim=ph, dtype=dt, sites=ss, seed=case["seed"] % 2**31, normalize=False, **ids)
+        X = qtn.MPO_identity_like(base) if case["herm"] else qtn.MPO_zeros_like(base)
+        info["like"] = "identity" if case["herm"] else "zeros"
+        if int(X.L) != int(base.L) or sorted(X.gen_sites_present()) != sorted(base.gen_sites_present()) or \
+                set(X.outer_inds()) != set(base.outer_inds()):
+            raise Violation("like-sites", L=int(X.L), present=sorted(X.gen_sites_present()), want=sorted(ss), **info)
+        sites = ss
+        ref = np.eye(D) if case["herm"] else np.zeros((D, D))
+        check_dtype(X, dt, **info)
+        e = close(dense_op(X, sites, **info), ref, tol, 1.0, **info)
+        return {"nt": L >= 3 and len(ss) < case["Ltot"], "cls": cls + ["like=" + info["like"]], "err": e}
     elif w == "rand_state_method":
         # MatrixProductOperator.rand_state: "a random vector matching this MPO" (site-dependent dims allowed)
         phl = list(case["physl"])
@@ -978,7 +994,8 @@ def s_add(draw, tier):
     a = draw(chains(op=op, maxD=64 if op else 512, Lmax=5 if op else 7))
     b = draw(partner(a))
     return {"a": a, "b": b, "route": draw(st.sampled_from(["add", "sub", "iadd", "isub", "add_method", "add_method_", "ag_sum_negate",
-                                                           "add_compress"]))}
+                                                           "add_compress"])),
+            "ea": draw(st.sampled_from([0.0, 0.0, 0.0, 0.0, 1.0, -2.0, 0.5])), "eb": draw(st.sampled_from([0.0, 0.0, 0.0, 0.0, 1.0, -2.0, 0.5]))}
 
 
 def run_add(case):
@@ -989,8 +1006,16 @@ def run_add(case):
     op, L = da["op"], da["L"]
     x, ra, ma = chain(da)
     y, rb, mb = chain(db)
+    # operands may carry a stored exponent (as left behind by compression with equalize_norms=<float>): part of the value
+    ea, eb = float(case.get("ea", 0.0)), float(case.get("eb", 0.0))
+    if ea:
+        x.exponent = ea
+        ra, ma = ra * 10.0**ea, ma * 10.0**ea
+    if eb:
+        y.exponent = eb
+        rb, mb = rb * 10.0**eb, mb * 10.0**eb
     route = case["route"]
-    info = dict(route=route, op=op, cyclic=da["cyclic"])
+    info = dict(route=route, op=op, cyclic=da["cyclic"], exp_differ=bool(ea != eb))
     sites = list(range(L))
     tol = tol_exact(da["dtype"], db["dtype"])
     sign = 1.0
@@ -1028,12 +1053,15 @@ def run_add(case):
         # plain spellings leave the operands alone
         untouched(x0, fx, **info)
     untouched(y, fy, **info)
-    return {"nt": chain_nt(da) or chain_nt(db), "cls": chain_classes(da) + ["route=" + route, "dt2=" + db["dtype"]], "err": e}
+    if float(y.exponent) != eb:
+        raise Violation("operand-mutated", what="exponent", **info)
+    return {"nt": chain_nt(da) or chain_nt(db), "cls": chain_classes(da) + ["route=" + route, "dt2=" + db["dtype"]] +
+            (["exp-equal" if ea == eb else "exp-differ"] if (ea or eb) else []), "err": e}
 
 
 SCALARS = {"2.0": 2.0, "-3.0": -3.0, "0.5": 0.5, "1e-3": 1e-3, "-1": -1, "2": 2, "0.3-1.2j": 0.3 - 1.2j, "1j": 1j, "-2+0j": -2 + 0j,
            "np64:2.5": np.float64(2.5), "np64:-0.25": np.float64(-0.25), "np32:1.5": np.float32(1.5), "npc:1-1j": np.complex128(1 - 1j),
-           "0.0": 0.0, "0": 0, "np64:0": np.float64(0.0), "0j": 0j, "-0.0": -0.0}
+           "0.0": 0.0, "0": 0, "np64:0": np.float64(0.0), "0j": 0j, "-0.0": -0.0, "npi64:2": np.int64(2), "npi32:-3": np.int32(-3)}
 
 
 @st.composite
@@ -1042,13 +1070,17 @@ def s_scalar(draw, tier):
     a = draw(chains(op=op, maxD=64 if op else 512, Lmax=5 if op else 7))
     return {"a": a, "x": draw(st.sampled_from(sorted(SCALARS))), "route": draw(st.sampled_from(
         ["mul", "rmul", "imul", "div", "idiv", "multiply", "multiply_", "multiply_spread", "neg", "negate_", "multiply_each"])),
-        "spread": draw(st.sampled_from([1, 2, 8, "all"]))}
+        "spread": draw(st.sampled_from([1, 2, 8, "all"])), "ea": draw(st.sampled_from([0.0, 0.0, 0.0, 0.0, 1.0, -2.0, 0.5]))}
 
 
 def run_scalar(case):
     da = case["a"]
     op, L = da["op"], da["L"]
     t, ref, mag = chain(da)
+    ea = float(case.get("ea", 0.0))
+    if ea:
+        t.exponent = ea
+        ref, mag = ref * 10.0**ea, mag * 10.0**ea
     x = SCALARS[case["x"]]
     route = case["route"]
     zero = complex(x) == 0
@@ -1061,8 +1093,13 @@ def run_scalar(case):
     if route in ("div", "idiv"):
         if zero:
             raise Reject("division by zero")
-        fac = 1 / complex(x) if isinstance(x, complex) else 1.0 / x
-    if route == "mul":
+        fac = 1 / complex(x) if isinstance(x, complex) else 1.0 / float(x)
+    if route in ("div", "idiv") and isinstance(x, np.integer):
+        try:
+            r = t / x if route == "div" else t.__itruediv__(x)
+        except ValueError as exc:
+            raise Violation("div-numpy-int", **info) from exc
+    elif route == "mul":
         r = t * x
     elif route == "rmul":
         r = x * t
@@ -1119,7 +1156,7 @@ def s_apply(draw, tier):
     return {"A": a, "x": x, "route": route, "contract": draw(st.booleans()), "compress": draw(st.booleans()),
             "which_A": draw(st.sampled_from(["lower", "upper"])), "which_B": draw(st.sampled_from(["upper", "lower"])),
             "lazy": draw(st.sampled_from(["upper", "lower"])), "transpose": draw(st.booleans()), "dagger": draw(st.booleans()),
-            "fuse": draw(st.booleans())}
+            "fuse": draw(st.booleans()), "eA": draw(st.sampled_from([0.0, 0.0, 0.0, 0.0, 1.0, -2.0, 0.5])), "ex": draw(st.sampled_from([0.0, 0.0, 0.0, 0.0, 1.0, -2.0, 0.5]))}
 
 
 def run_apply(case):
@@ -1130,12 +1167,19 @@ def run_apply(case):
     L = dx["L"]
     Aop, MA, magA = chain(dA)
     x, rx, magx = chain(dx)
+    eA, ex = float(case.get("eA", 0.0)), float(case.get("ex", 0.0))
+    if eA:
+        Aop.exponent = eA
+        MA, magA = MA * 10.0**eA, magA * 10.0**eA
+    if ex:
+        x.exponent = ex
+        rx, magx = rx * 10.0**ex, magx * 10.0**ex
     target_op = dx["op"]
     route = case["route"]
     sites = list(range(L))
     tol = tol_exact(dA["dtype"], dx["dtype"]) * 10
-    info = dict(route=route, target_op=target_op, cyclic=dx["cyclic"])
-    cls = chain_classes(dx) + ["route=" + route, "target=" + ("mpo" if target_op else "mps")]
+    info = dict(route=route, target_op=target_op, cyclic=dx["cyclic"], exponents=bool(eA or ex))
+    cls = chain_classes(dx) + ["route=" + route, "target=" + ("mpo" if target_op else "mps")] + (["exp!=0"] if (eA or ex) else [])
     layers = 2
     compress = case["compress"] and case["contract"] and not dx["cyclic"] and route in ("apply", "apply_", "dot", "fn")
     ckw = dict(compress=True, cutoff=0.0) if compress else {}
@@ -1283,6 +1327,61 @@ def run_apply_sub(case):
     return {"nt": L >= 3 and len(ss) < L, "cls": cls, "err": e}
 
 
+@st.composite
+def s_apply_sub_op(draw, tier):
+    x = draw(chains(op=True, Lmin=2, Lmax=5, maxD=36, cyclic=True, dtypes=A.DTYPES64, kinds=KINDS_WELL, max_bond=3))
+    L = x["L"]
+    n = draw(st.integers(2, min(L, 4)))
+    sites = sorted(draw(st.lists(st.integers(0, L - 1), min_size=n, max_size=n, unique=True)))
+    a = {"op": True, "L": n, "phys": [x["phys"][s] for s in sites], "bonds": [draw(st.integers(1, 2)) for _ in range(n)], "cyclic": False,
+         "dtype": draw(st.sampled_from(A.DTYPES64)), "seed": draw(A.seeds), "kind": draw(st.sampled_from(KINDS_WELL))}
+    return {"A": a, "x": x, "sites": sites, "contract": draw(st.booleans()), "transpose": draw(st.booleans()), "dagger": draw(st.booleans()),
+            "route": draw(st.sampled_from(["apply", "apply", "dot", "fn_lower_upper", "fn_lower_lower", "fn_upper_upper", "fn_upper_lower",
+                                           "lazy_upper", "lazy_lower", "sandwich"]))}
+
+
+def run_apply_sub_op(case):
+    """operator on a SUBSET of sites acting on an operator defined on all sites: (1 x A x 1) B etc."""
+    qtn = Q()
+    from quimb.tensor.tnag.core import tensor_network_apply_op_op
+
+    dA, dx, ss = case["A"], case["x"], case["sites"]
+    L = dx["L"]
+    arrsA = chain_arrays(dA)
+    MA, magA = chain_dense(dA, arrsA)
+    Aop = qtn.MatrixProductOperator([a.copy() for a in arrsA], sites=ss, L=L)
+    B, MB, magB = chain(dx)
+    E = embed(MA, dx["phys"], ss)
+    route = case["route"]
+    partial = len(ss) < L
+    info = dict(route=route, partial=partial, cyclic=dx["cyclic"])
+    fB, fA = fingerprint(B), fingerprint(Aop)
+    floor = magA * magB * math.sqrt(float(prod(dx["phys"][i] for i in range(L) if i not in ss)))
+    if route in ("apply", "dot"):
+        r = (Aop.apply if route == "apply" else Aop.dot)(B, contract=case["contract"])
+        want = E @ MB
+    elif route.startswith("fn_"):
+        wa, wb = route.split("_")[1:]
+        r = tensor_network_apply_op_op(Aop, B, which_A=wa, which_B=wb, contract=case["contract"])
+        a = E if wa == "lower" else E.T
+        want = a @ MB if wb == "upper" else MB @ a.T
+    elif route == "lazy_upper":
+        r, want = B.gate_upper_with_op_lazy(Aop, transpose=case["transpose"]), (E.T if case["transpose"] else E) @ MB
+    elif route == "lazy_lower":
+        r, want = B.gate_lower_with_op_lazy(Aop, transpose=case["transpose"]), MB @ (E.T if case["transpose"] else E)
+    else:
+        r = B.gate_sandwich_with_op_lazy(Aop, dagger=case["dagger"])
+        want = (E.conj().T @ MB @ E) if case["dagger"] else (E @ MB @ E.conj().T)
+        floor *= magA
+    if type(r) is not type(B):
+        raise Violation("result-type", got=type(r).__name__, **info)
+    e = close(dense_op(r, list(range(L)), **info), want, EXACT64 * 10, floor, **info)
+    untouched(B, fB, **info)
+    untouched(Aop, fA, "operator-mutated", **info)
+    return {"nt": L >= 3 and partial, "cls": ["route=" + route, f"L={L}", f"n={len(ss)}", "partial" if partial else "all-sites",
+                                              "cyclic" if dx["cyclic"] else "open"], "err": e}
+
+
 # ---------------------------------------------------------------------------
 # 7. overlaps, norms, expectation values, traces, normalisation
 # ---------------------------------------------------------------------------
@@ -1296,7 +1395,8 @@ def s_scalars(draw, tier):
     return {"a": a, "b": b, "A": A1, "B": A2,
             "route": draw(st.sampled_from(["H@", "overlap", "norm", "norm_sq", "expec1", "expec2", "expec_method", "trace", "trace_prod",
                                            "normalize", "normalize_bra", "mpo_norm", "schmidt"])),
-            "insert": draw(st.sampled_from([None, 0, 1, -1])), "cut": draw(st.integers(1, 6))}
+            "insert": draw(st.sampled_from([None, 0, 1, -1])), "cut": draw(st.integers(1, 6)),
+            "exps": [draw(st.sampled_from([0.0, 0.0, 0.0, 0.0, 1.0, -2.0, 0.5])) for _ in range(4)]}
 
 
 def run_scalars(case):
@@ -1304,17 +1404,28 @@ def run_scalars(case):
     da = case["a"]
     L = da["L"]
     route = case["route"]
-    a, ra, ma = chain(da)
+    exps = [float(e) for e in case.get("exps", [0.0] * 4)]
+    if route in ("normalize", "normalize_bra", "schmidt"):
+        exps = [0.0] * 4  # (exponent-carrying operands only for the plain scalar routes)
+
+    def chE(desc, k):
+        obj, ref, mag = chain(desc)
+        if exps[k]:
+            obj.exponent = exps[k]
+            ref, mag = ref * 10.0 ** exps[k], mag * 10.0 ** exps[k]
+        return obj, ref, mag
+
+    a, ra, ma = chE(da, 0)
     tol = tol_exact(da["dtype"], case["b"]["dtype"], case["A"]["dtype"], case["B"]["dtype"]) * 10
     info = dict(route=route, cyclic=da["cyclic"])
-    cls = chain_classes(da) + ["route=" + route]
+    cls = chain_classes(da) + ["route=" + route] + (["exp!=0"] if any(exps) else [])
     sites = list(range(L))
 
     def sc(got, want, floor, **kw):
         return close(np.asarray(complex(got)), np.asarray(complex(want)), tol, floor, **info, **kw)
 
     if route in ("H@", "overlap"):
-        b, rb, mb = chain(case["b"])
+        b, rb, mb = chE(case["b"], 1)
         if route == "H@":
             e = sc(a.H @ b, np.vdot(ra, rb), ma * mb)
         else:
@@ -1325,27 +1436,27 @@ def run_scalars(case):
     elif route == "norm_sq":
         e = sc(a.norm(squared=True), np.linalg.norm(ra) ** 2, ma**2)
     elif route in ("expec1", "expec_method"):
-        b, rb, mb = chain(case["b"])
-        Aop, MA, mA = chain(case["A"])
+        b, rb, mb = chE(case["b"], 1)
+        Aop, MA, mA = chE(case["A"], 2)
         if route == "expec1":
             got = qtn.expec_TN_1D(a.H, Aop, b)
         else:
             got = a.H.expec(Aop, b)
         e = sc(got, np.vdot(ra, MA @ rb), ma * mb * mA)
     elif route == "expec2":
-        b, rb, mb = chain(case["b"])
-        Aop, MA, mA = chain(case["A"])
-        Bop, MB, mB = chain(case["B"])
+        b, rb, mb = chE(case["b"], 1)
+        Aop, MA, mA = chE(case["A"], 2)
+        Bop, MB, mB = chE(case["B"], 3)
         e = sc(qtn.expec_TN_1D(a.H, Aop, Bop, b), np.vdot(ra, MA @ MB @ rb), ma * mb * mA * mB)
     elif route == "trace":
-        Aop, MA, mA = chain(case["A"])
+        Aop, MA, mA = chE(case["A"], 2)
         e = sc(Aop.trace(), np.trace(MA), mA)
     elif route == "trace_prod":
-        Aop, MA, mA = chain(case["A"])
-        Bop, MB, mB = chain(case["B"])
+        Aop, MA, mA = chE(case["A"], 2)
+        Bop, MB, mB = chE(case["B"], 3)
         e = sc(Aop.apply(Bop).trace(), np.trace(MA @ MB), mA * mB)
     elif route == "mpo_norm":
-        Aop, MA, mA = chain(case["A"])
+        Aop, MA, mA = chE(case["A"], 2)
         e = sc(Aop.norm(), np.linalg.norm(MA), mA)
         e = max(e, sc(Aop.H @ Aop, np.linalg.norm(MA) ** 2, mA**2))
     elif route in ("normalize", "normalize_bra"):
@@ -1793,7 +1904,7 @@ def check_one_per_site(r, L, **info):
 
 @st.composite
 def s_compress(draw, tier):
-    inp = draw(s_layers())
+    inp = draw(s_layers(Lmin=1, Lmax=1)) if draw(st.integers(0, 11)) == 0 else draw(s_layers())
     method = draw(st.sampled_from(M_1D + M_1D + M_AG))
     return {"inp": inp, "method": method, "reverse": draw(st.booleans()), "canonize": draw(st.integers(0, 3)) > 0,
             "cap": draw(st.sampled_from(["exact", "exact", "below", "below", "none"])), "extra": draw(st.integers(0, 2)),
@@ -1802,7 +1913,8 @@ def s_compress(draw, tier):
             "equalize": draw(st.sampled_from([False, False, False, True, 1.0])), "seed": draw(st.integers(0, 2**31 - 1)),
             "iters": draw(st.sampled_from([None, None, 5, 6])), "give_tags": draw(st.booleans()),
             "over": draw(st.sampled_from([None, "struct", "struct", "1.5"])),
-            "via": draw(st.sampled_from(["dispatcher", "dispatcher", "gate_with_mpo"]))}
+            "via": draw(st.sampled_from(["dispatcher", "dispatcher", "gate_with_mpo"])),
+            "in_exp": draw(st.sampled_from([0.0, 0.0, 0.0, 0.0, 0.0, 1.0, -2.0]))}
 
 
 def compress_expectations(method, reverse, iters, L):
@@ -1823,6 +1935,9 @@ def run_compress(case):
     inp, method = case["inp"], case["method"]
     tn, sites, chi, sd = build_layers(inp)
     L = len(sites)
+    in_exp = float(case.get("in_exp", 0.0))
+    if in_exp:
+        tn.exponent = in_exp  # (as left behind by a previous compression with equalize_norms=<float>)
     ref = dense_any(tn, sites)
     nref = float(np.linalg.norm(ref))
     if nref == 0.0:
@@ -1869,15 +1984,29 @@ def run_compress(case):
     if via == "gate_with_mpo" and (inp["kind"] != "mpo-mps" or case["inplace"] or case["give_tags"]):
         via = "dispatcher"
     info["via"] = via
+    info["L1"] = bool(L == 1)
+    info["in_exp"] = bool(in_exp)
+
+    def call():
+        if via == "dispatcher":
+            return tensor_network_1d_compress(tn, **kw)
+        x0, _, _ = chain(inp["x"])
+        A0, _, _ = chain(inp["layers"][0])
+        if in_exp:
+            x0.exponent = in_exp
+        return x0.gate_with_mpo(A0, **{k: v for k, v in kw.items() if k != "inplace"})
+
     # contract: methods that need an explicit bond dimension refuse None (ValueError; TypeError for srcmps);
     # 1-site fitting refuses a non-zero cutoff
-    with rejecting(ValueError, TypeError, tag="refused:"):
-        if via == "dispatcher":
-            r = tensor_network_1d_compress(tn, **kw)
-        else:
-            x0, _, _ = chain(inp["x"])
-            A0, _, _ = chain(inp["layers"][0])
-            r = x0.gate_with_mpo(A0, **{k: v for k, v in kw.items() if k != "inplace"})
+    if L == 1 and not (cap is None and method in NEED_CAP) and not (cutoff != 0.0 and method in M_FIT):
+        # a one-site chain ("for all lengths"): nothing to truncate, some methods serve it - none may crash on it
+        try:
+            r = call()
+        except (TypeError, StopIteration, ValueError, KeyError, IndexError) as exc:
+            raise Violation("L1-refused", exc=type(exc).__name__, **info) from exc
+    else:
+        with rejecting(ValueError, TypeError, tag="refused:"):
+            r = call()
     if cap is None and method in NEED_CAP and not (method in M_FIT and cutoff != 0.0 and method == "fit"):
         pass  # (some of these accept None after all, e.g. 2-site fit with a cutoff: fine either way)
     if case["inplace"]:
@@ -1986,7 +2115,8 @@ def s_fit_sum(draw, tier):
             "iters": draw(st.sampled_from([None, 7, 8])), "bsz": draw(st.sampled_from(["auto", 1, 2])),
             "guess": draw(st.sampled_from([None, None, "zipup", "rand"])), "seed": draw(st.integers(0, 2**31 - 1)),
             "cap": draw(st.sampled_from(["exact", "exact", "below"])), "below": draw(st.integers(0, 10**6)),
-            "normalize": draw(st.integers(0, 4)) == 0}
+            "normalize": draw(st.integers(0, 4)) == 0,
+            "exps": [draw(st.sampled_from([0.0, 0.0, 0.0, 1.0, -1.0, 2.0])) for _ in range(n)]}
 
 
 def run_fit_sum(case):
@@ -1996,6 +2126,10 @@ def run_fit_sum(case):
     terms = case["terms"]
     built = [build_layers(t) for t in terms]
     tns = [b[0] for b in built]
+    exps = [float(e) for e in case.get("exps", [0.0] * len(tns))]
+    for tn, ex in zip(tns, exps):
+        if ex:
+            tn.exponent = ex  # (part of the value: the dense reference below reads it)
     sites = built[0][1]
     L = len(sites)
     refs = [dense_any(tn, sites) for tn in tns]
@@ -2021,7 +2155,7 @@ def run_fit_sum(case):
             raise Reject("random guess generators take one physical dimension")
         kw["tn_fit"] = g
     info = dict(nterms=len(tns), guess=str(case["guess"]), bsz=str(case["bsz"]), reverse=case["reverse"], capkind=case["cap"],
-                normalize=case["normalize"])
+                normalize=case["normalize"], exp_avg_zero=bool(any(exps) and sum(exps) == 0.0), exponents=bool(any(exps)))
     fps = [fingerprint(t) for t in tns]
     with rejecting(ValueError, tag="refused:"):
         r = tensor_network_1d_compress(tns, **kw)
@@ -2064,7 +2198,8 @@ def run_fit_sum(case):
             raise Violation("not-canonical", defect=d, **info)
         e = max(e, d)
     return {"nt": L >= 3, "cls": ["input=" + terms[0]["kind"], f"terms={len(tns)}", "guess=" + str(case["guess"]), "bsz=" + str(case["bsz"]),
-                                  "cap=" + case["cap"], f"L={L}"] + (["guess-too-small"] if too_small else []), "err": e}
+                                  "cap=" + case["cap"], f"L={L}"] + (["guess-too-small"] if too_small else []) +
+            (["exp-avg-zero" if info["exp_avg_zero"] else "exp!=0"] if any(exps) else []), "err": e}
 
 
 # ---------------------------------------------------------------------------
@@ -2315,6 +2450,8 @@ SUBCHECKS = [
              rule="MPO.apply/apply_/dot on MPS and MPO (contract, compress), tensor_network_apply_op_vec/op_op (all which_A/which_B), gate_*_with_op_lazy, sandwich, gate_with_mpo == dense products; nt: L>=3"),
     SubCheck("apply_submpo", run_apply_sub, s_apply_sub, examples=(300, 5000), shards=(1, 4),
              rule="sub-MPO on a subset of sites applied to an MPS (apply, lazy, gate_with_submpo x all 17 1D methods + lazy x transpose x sweep_reverse) == kron-embedded operator; recorded orthogonality range true; nt: L>=3 and strict subset"),
+    SubCheck("apply_submpo_op", run_apply_sub_op, s_apply_sub_op, examples=(150, 3000), shards=(1, 4),
+             rule="sub-MPO on a site subset acting on a full MPO (open/cyclic): apply/dot (contract or lazy), tensor_network_apply_op_op in all 4 wirings, gate_upper/lower_with_op_lazy(transpose), sandwich(dagger) == products with the kron-embedded operator; operands untouched; nt: L>=3 and strict subset"),
     SubCheck("scalars", run_scalars, s_scalars, examples=(250, 5000), shards=(1, 4),
              rule="a.H@b, overlap, norm, expec_TN_1D with 1-2 operators, trace, trace of product, normalize(bra, insert), bipartite Schmidt values == dense; nt: L>=3 and site-dependent dims or cyclic or >=2 layers"),
     SubCheck("local_queries", run_local, s_local, examples=(400, 8000), shards=(2, 6),
